@@ -398,6 +398,15 @@ func (t *TOTP) PostValidate(w http.ResponseWriter, r *http.Request) error {
 		}
 	}
 
+	// The second step completes a login: give the modules that can veto a
+	// login (lock, confirm) the same chance they get at the first step.
+	r = r.WithContext(context.WithValue(r.Context(), authboss.CTXKeyUser, user))
+	if handled, err := t.Authboss.Events.FireBefore(authboss.EventAuth, w, r); err != nil {
+		return err
+	} else if handled {
+		return nil
+	}
+
 	authboss.PutSession(w, authboss.SessionKey, user.GetPID())
 	authboss.PutSession(w, authboss.Session2FA, "totp")
 
